@@ -37,6 +37,8 @@ func init() {
 		mutation{"cache-error-ignored", "tun/server/server.go", "	if ret.err != nil {\n		return nil, ret.err\n	}\n", "", "dial"},
 		mutation{"proxy-any-destination", "tun/server/server.go", "		err = tun.ErrDestinationNotFound\n		return\n	}\n\n	clientConn, err = s.TunnelTransport.DialStream", "		err = nil\n	}\n\n	clientConn, err = s.TunnelTransport.DialStream", "proxy"},
 		mutation{"nodirect-as-notfound", "tun/server/server.go", "	if isNoRoute {\n		return nil, tun.ErrTunnelClientNotConnected\n	}\n", "	if isNoRoute {\n		return nil, tun.ErrDestinationNotFound\n	}\n", "classification"},
+		mutation{"status-by-if-chain", "tun/server/server.go", "		switch status.GetStatus() {\n		case protocol.TunnelStatusCode_STATUS_OK:\n			return conn, nil\n		case protocol.TunnelStatusCode_NO_DIRECT:\n			return nil, tun.ErrTunnelClientNotConnected\n		default:", "		if status.GetStatus() == protocol.TunnelStatusCode_STATUS_OK {\n			return conn, nil\n		}\n		switch status.GetStatus() {\n		case protocol.TunnelStatusCode_NO_DIRECT:\n			return nil, tun.ErrTunnelClientNotConnected\n		default:", "!getconn"},
+		mutation{"status-any-non-error-is-ok", "tun/server/server.go", "		switch status.GetStatus() {\n		case protocol.TunnelStatusCode_STATUS_OK:\n			return conn, nil\n		case protocol.TunnelStatusCode_NO_DIRECT:\n			return nil, tun.ErrTunnelClientNotConnected\n		default:", "		switch status.GetStatus() {\n		case protocol.TunnelStatusCode_NO_DIRECT:\n			return nil, tun.ErrTunnelClientNotConnected\n		case protocol.TunnelStatusCode_STATUS_OK, protocol.TunnelStatusCode_UNKNOWN_ERROR:\n			return conn, nil\n		default:", "getconn"},
 		mutation{"status-nodirect-swallowed", "tun/server/server.go", "		case protocol.TunnelStatusCode_NO_DIRECT:\n			return nil, tun.ErrTunnelClientNotConnected\n", "", "getconn"},
 	)
 	addSelfTests("C28",
@@ -60,6 +62,8 @@ func init() {
 		mutation{"renew-v1-allowed", "pki/client_rpc.go", "	if identity.Version == pki.TokenV1 {\n		return nil, twirp.FailedPrecondition.Error(\"v1 certificates cannot be renewed; please use the migration tool (util/migrator) to upgrade to v2\")\n	}\n", "", "renew-gate"},
 		mutation{"renew-new-subject", "pki/client_rpc.go", "		Subject:   oldCert.Subject, // Preserve exact subject from old certificate", "		Subject:   pki.MakeSubjectV2(identity.ID, hashed),", "renew-provenance"},
 		mutation{"v2-token-is-hash-only", "spec/pki/token.go", "			Token:   []byte(cn),", "			Token:   []byte(parts[2]),", "identity"},
+		mutation{"identity-by-if-chain", "spec/pki/token.go", "	switch parts[0] {\n	case string(TokenV1):\n		return &Identity{", "	if parts[0] != string(TokenV1) && parts[0] != string(TokenV2) {\n		return nil, errors.New(\"pki: unknown subject in certificate\")\n	}\n	switch parts[0] {\n	case string(TokenV1):\n		return &Identity{", "!identity"},
+		mutation{"identity-v2-for-any-other-tag", "spec/pki/token.go", "	case string(TokenV2):\n		return &Identity{\n			ID:      util.Must(strconv.ParseUint(parts[1], 10, 64)),\n			Token:   []byte(cn),\n			Version: TokenV2,\n		}, nil\n	default:\n		return nil, errors.New(\"pki: unknown subject in certificate\")\n	}", "	default:\n		return &Identity{\n			ID:      util.Must(strconv.ParseUint(parts[1], 10, 64)),\n			Token:   []byte(cn),\n			Version: TokenV2,\n		}, nil\n	}", "identity"},
 		mutation{"renew-ca-unverified", "pki/client_rpc.go", "	if err != nil {\n		return nil, twirp.PermissionDenied.Error(\"certificate not issued by this CA\")\n	}\n", "	_ = err\n", "renew-gate"},
 	)
 	addSelfTests("C33",
@@ -172,29 +176,38 @@ func runC27(c *Ctx) {
 			c.Ob("getconn", "getConn#dial-kind:"+kind, d.Pos(), false, "unexpected stream kind")
 		}
 	}
+	// the remote status is read from the path facts at each return (a switch on the status
+	// and an if-chain are decided alike)
+	isStatus := func(e ast.Expr) bool { return strings.HasSuffix(gc.Prov(e), ".GetStatus()") }
+	okCases := map[string]bool{}
 	for _, r := range gc.Returns() {
 		fs := gc.FactsAt(r)
-		tagIs := func(name string) bool {
-			return fs.Cmp(func(e, tag ast.Expr, truth bool, fa *Fact) bool {
-				return tag != nil && truth && constName(gc, e) == name && strings.HasSuffix(gc.Prov(tag), ".GetStatus()")
-			})
+		pos, neg := fs.EqConsts(gc, isStatus)
+		is := func(name string) bool {
+			for _, k := range pos {
+				if k == name {
+					return true
+				}
+			}
+			return false
 		}
-		if tagIs("TunnelStatusCode_STATUS_OK") {
+		if is("TunnelStatusCode_STATUS_OK") {
+			okCases["TunnelStatusCode_STATUS_OK"] = true
 			c.Ob("getconn", "getConn#STATUS_OK->conn", r.Pos(), strings.Contains(gc.Prov(r.Results[0]), "DialStream()#0") && isNilIdent(gc.Info, r.Results[1]) && fs.CallOK("spec/rpc.Send") && fs.CallOK("spec/rpc.BoundedReceive"), "the proxied connection is handed out only after the route was sent and the remote answered STATUS_OK")
 		}
-		if tagIs("TunnelStatusCode_NO_DIRECT") {
+		if is("TunnelStatusCode_NO_DIRECT") {
+			okCases["TunnelStatusCode_NO_DIRECT"] = true
 			c.Ob("getconn", "getConn#NO_DIRECT->not-connected", r.Pos(), gc.Prov(r.Results[1]) == "global:spec/tun.ErrTunnelClientNotConnected", "a remote NO_DIRECT status becomes ErrTunnelClientNotConnected")
 		}
-	}
-	okCases := map[string]bool{}
-	ast.Inspect(gc.Body, func(n ast.Node) bool {
-		if cc, ok := n.(*ast.CaseClause); ok {
-			for _, e := range cc.List {
-				okCases[constName(gc, e)] = true
-			}
+		if len(pos) == 0 && len(neg) > 0 && len(r.Results) == 2 {
+			// any other status: never a connection
+			c.Ob("getconn", "getConn#other-status->error", r.Pos(), isNilIdent(gc.Info, r.Results[0]) && !isNilIdent(gc.Info, r.Results[1]), "a status other than STATUS_OK never yields a connection")
 		}
-		return true
-	})
+		// a connection obtained through the proxy is returned only under STATUS_OK
+		if len(r.Results) == 2 && strings.Contains(gc.Prov(r.Results[0]), "DialStream()#0") && isNilIdent(gc.Info, r.Results[1]) && fs.CallOK("spec/rpc.Send") {
+			c.Ob("getconn", "getConn#proxied-conn-only-under-STATUS_OK", r.Pos(), is("TunnelStatusCode_STATUS_OK"), "the proxied connection is returned as usable only when the remote reported STATUS_OK")
+		}
+	}
 	c.Ob("getconn", "getConn#status-cases", gc.Decl.Pos(), okCases["TunnelStatusCode_STATUS_OK"] && okCases["TunnelStatusCode_NO_DIRECT"], "both remote status codes are distinguished")
 	for _, call := range gc.CallsTo(false, "spec/rpc.Send") {
 		c.Ob("getconn", "getConn#sends-route", call.Pos(), gc.Prov(call.Args[1]) == "param#1", "the proxy peer is told which route (client) to connect to")
@@ -775,36 +788,58 @@ func runC32(c *Ctx) {
 	// ExtractCertificateIdentity
 	ei := c.Func("spec/pki", "", "ExtractCertificateIdentity")
 	nid := 0
+	// per constructed Identity: the Version field names the format, the Token follows from
+	// it, and the literal is reached only when the subject's first part equals that
+	// version's tag (path facts: switch arm or if-chain)
+	isTag := func(e ast.Expr) bool { return strings.HasSuffix(ei.Prov(e), "strings.SplitN()[const:0]") }
 	ast.Inspect(ei.Body, func(n ast.Node) bool {
-		cc, ok := n.(*ast.CaseClause)
+		lit, ok := n.(*ast.CompositeLit)
 		if !ok {
 			return true
 		}
-		for _, e := range cc.List {
-			ver := ""
-			if call, ok := e.(*ast.CallExpr); ok && len(call.Args) == 1 {
-				ver = constName(ei, call.Args[0])
+		if tv, ok := ei.Info.Types[lit]; !ok || !strings.HasSuffix(tv.Type.String(), "spec/pki.Identity") {
+			return true
+		}
+		ver, tokenPv := "", ""
+		var tokPos token.Pos = lit.Pos()
+		for _, el := range lit.Elts {
+			kv, ok := el.(*ast.KeyValueExpr)
+			if !ok {
+				continue
 			}
-			for _, st := range cc.Body {
-				ast.Inspect(st, func(m ast.Node) bool {
-					kv, ok := m.(*ast.KeyValueExpr)
-					if !ok {
-						return true
-					}
-					if kv.Key.(*ast.Ident).Name == "Token" {
-						nid++
-						pv := ei.Prov(kv.Value)
-						switch ver {
-						case "TokenV2":
-							c.Ob("identity", "ExtractCertificateIdentity#v2-token-is-whole-CN", kv.Pos(), pv == "param#0.Subject.CommonName", "a v2 identity's token is the whole common name (unique per subject: version, id and key hash); found "+pv)
-						case "TokenV1":
-							c.Ob("identity", "ExtractCertificateIdentity#v1-token-is-third-part", kv.Pos(), strings.Contains(pv, "strings.SplitN()[const:2]"), "a v1 identity's token is the third CN part; found "+pv)
-						}
-					}
-					return true
-				})
+			switch kv.Key.(*ast.Ident).Name {
+			case "Version":
+				ver = constName(ei, kv.Value)
+			case "Token":
+				tokenPv, tokPos = ei.Prov(kv.Value), kv.Pos()
 			}
 		}
+		if ver == "" {
+			c.Ob("identity", "ExtractCertificateIdentity#identity-has-a-constant-version", lit.Pos(), false, "every constructed identity carries one of the version constants")
+			return true
+		}
+		nid++
+		switch ver {
+		case "TokenV2":
+			c.Ob("identity", "ExtractCertificateIdentity#v2-token-is-whole-CN", tokPos, tokenPv == "param#0.Subject.CommonName", "a v2 identity's token is the whole common name (unique per subject: version, id and key hash); found "+tokenPv)
+		case "TokenV1":
+			c.Ob("identity", "ExtractCertificateIdentity#v1-token-is-third-part", tokPos, strings.Contains(tokenPv, "strings.SplitN()[const:2]"), "a v1 identity's token is the third CN part; found "+tokenPv)
+		default:
+			c.Ob("identity", "ExtractCertificateIdentity#version:"+ver, lit.Pos(), false, "unexpected identity version")
+		}
+		// the literal is built only for a subject whose tag is this version's value
+		want := ""
+		if o, ok := c.P("spec/pki").Types.Scope().Lookup(ver).(*types.Const); ok {
+			want = o.Val().ExactString()
+		}
+		pos, _ := ei.FactsAt(lit).EqConsts(ei, isTag)
+		hit := false
+		for _, k := range pos {
+			if k == want || k == ver {
+				hit = true
+			}
+		}
+		c.Ob("identity", "ExtractCertificateIdentity#"+ver+"-only-for-its-own-tag", lit.Pos(), hit && want != "", fmt.Sprintf("an identity of version %s is built only when the subject's first part equals %s; the tag is known to equal %v here", ver, want, pos))
 		return true
 	})
 	c.Floor("identity token constructions", nid, 2)
